@@ -31,6 +31,9 @@ func selectorMatches(sel *metav1.LabelSelector, lbl map[string]string) (bool, bo
 				in = true
 			}
 		}
+		if (r.Operator == metav1.LabelSelectorOpIn || r.Operator == metav1.LabelSelectorOpNotIn) && len(r.Values) == 0 {
+			return false, false // not a valid requirement: the selector cannot be evaluated
+		}
 		switch r.Operator {
 		case metav1.LabelSelectorOpIn:
 			if !has || !in {
@@ -113,7 +116,21 @@ func CheckCanaryNodes(pre, post *State, reconcileErr error, ns, name string) (is
 		valid[n.Name] = el && m
 	}
 	if !usableSel {
-		return nil, true
+		// a selector that cannot be evaluated (unknown operator, In / NotIn without values) matches no node: every name
+		// the controller adds in this step is a node that does not match spec.strategy.canary.nodeSelector
+		was := map[string]bool{}
+		if e0.Status.Canary != nil {
+			for _, n := range e0.Status.Canary.Nodes {
+				was[n] = true
+			}
+		}
+		for _, n := range e1.Status.Canary.Nodes {
+			if !was[n] {
+				add("C15/unusable-selector: canary nodes were picked although spec.strategy.canary.nodeSelector cannot be evaluated (it matches no node) and the reconcile reported no error", n)
+				break
+			}
+		}
+		return issues, true
 	}
 	for _, p := range pre.Pods() {
 		if OwnedBy(p, ns, name) {
